@@ -103,18 +103,20 @@ Proof.
     destruct (with_table_config v fb tbl Ef) as [_ H5].
     assert (Hr : strip_file (run_C02 (with_table v tbl)) = run_C02 (with_table v tbl)).
     { unfold run_C02. destruct (bpe_tokenize _ _); reflexivity. }
-    rewrite Hr. apply check_run_l. rewrite H5. exact Hs.
+    rewrite Hr. rewrite check_run_l by (rewrite H5; exact Hs). apply orb_true_r.
   - assert (Hr : strip_file (run_C02 v) = run_C02 v). { unfold run_C02. destruct (bpe_tokenize _ _); reflexivity. }
     rewrite Hr. apply check_run_l. exact Hs.
 Qed.
 
 Theorem check_sound_f_l v out fb tbl : in_file v = Some fb -> load_table fb = Loaded tbl ->
-  config_ok (v_config (with_table v tbl)) = true -> check_C02f v out = true ->
+  config_ok (v_config (with_table v tbl)) = true -> out <> L [] -> check_C02f v out = true ->
   c_tbl (v_config (with_table v tbl)) = tbl /\
   exists ids vs, strip_file out = L [list_v n_v ids; L [list_v n_v (utf8s (strip_trailing_ws (v_str (v_nth 5 v))))]; vs] /\
                  Forall (fun id => id < vocab_size (v_config (with_table v tbl))) ids.
 Proof.
-  intros Ef El Hc H. unfold check_C02f in H. rewrite Ef, El in H.
+  intros Ef El Hc Hne H. unfold check_C02f in H. rewrite Ef, El in H.
+  assert (H0 : is_ctor_error out = false). { destruct out as [z|[|x r]]; try reflexivity. congruence. }
+  rewrite H0 in H. cbn [orb] in H.
   destruct (with_table_config v fb tbl Ef) as [Hcfg H5]. split; [rewrite Hcfg; reflexivity|].
   destruct (check_C02_sound_l _ _ Hc H) as (ids & vs & E & Hids). rewrite H5 in E. exists ids, vs. split; assumption.
 Qed.
